@@ -91,6 +91,38 @@ CHECKS = {
              ">= retry period with doubling/cap/reset, bounded progress, no calls without a reference, readResponse only when ready).",
         note="Bounded depth for the exhaustive part; LP64 host: loop()'s unsigned long arithmetic does not wrap at 2^32 here.",
         design="2/C14", category="exploration"),
+    "C03": dict(
+        technique="differential testing against an independent compiler (zic) over three source corpora incl. a Hypothesis grammar; accounting invariant over the transformer output",
+        text="Corpora: source reconstructed from the shipped tables, the vendored real 2025b release (443 zones; expansion validated "
+             "against zic on the original), and Hypothesis-generated small sources (both scopes, varying year ranges). For every "
+             "(source, scope): tzcompiler.py -> generated C++ tables compiled into the sweep driver (path A: 300 s stride + per-second "
+             "windows at every oracle transition + field probes; thorough 60 s) and Extractor->Transformer->InlineGenerator->"
+             "ZoneSpecifier in-process (path P) must equal zic's function over [start_year, until_year); every input zone/link/policy is "
+             "emitted xor removed with a reason; extractor counters are 0; generated bufSize exceeds the pool high-water; generated "
+             "sources go through path P one by one and through path A compiled together.",
+        note="Zones with a truncation note are excluded from the semantic clause (counted: none in the corpora). 4 of 447 2025b zones "
+             "need a multi-SAVE %z expansion and are left out. Generated zones whose zic output the two oracle readers disagree on are "
+             "discarded and counted. One known finding (basic era change into a policy era) has a fixed probe.",
+        design="2/C03", category="exploration"),
+    "C19": dict(
+        technique="Hypothesis-drawn and table-constructed (zone, range, interval) cases vs the third-party libraries' own transition tables; render/read-back round trip",
+        text="compare_pytz / compare_dateutil TestDataGenerator on cases constructed from the library's transition table (a transition "
+             "near the end of the range, ~1/3 of the cases) and Hypothesis-drawn cases over all zones, ranges within 2000..2037, sampling "
+             "intervals 1..22 h and both detect_dst settings (thorough: every zone for 2000..2037): items sorted/unique, every item "
+             "equals a fresh library evaluation, every qualifying table transition bracketed by an adjacent-minute A/B (a/b) pair, "
+             "monthly and year-end samples; 10 data sets rendered by ArduinoValidationGenerator, compiled and read back.",
+        note="For dateutil the bracketing clause excludes zones with negative DST, DST-only changes and the last table entry (library API "
+             "and table disagree there; counted). validator.zstdgenerator (ZoneSpecifier-based) is not exercised.",
+        design="2/C19"),
+    "C20": dict(
+        technique="metamorphic relations over compiler runs (repeat under another hash seed, import vs in-memory, counts vs entries, basic vs extended differential) + zic differential on the checked-in Python database",
+        text="Sources {reconstructed 2020d, real 2025b} x scope x language x two runs in fresh interpreters with different "
+             "PYTHONHASHSEED: R1 byte-identical files (canonical reason order), R2 imported zone_infos.py/zone_policies.py == "
+             "InlineGenerator maps, R3 zones.txt == emitted set, R4 every stated count == counted entries (incl. kZoneRegistrySize), R5 "
+             "basic zones subset of extended with equal RLE streams through the two fresh builds, R6 every tools/zonedbpy zone x "
+             "2000..2037 vs zic on its recorded lines.",
+        note="R1 ignores the invocation line (contains the output path).",
+        design="2/C20"),
     "C04": dict(
         technique="differential testing (C++ vs Python reference implementation, and 8 Python configurations against each other) on generated instants and wall times",
         text="Every zone of zonedbx, decoded by the C++ brokers and mapped to the Python data model (same data by construction): C++ "
